@@ -47,7 +47,7 @@ PROPS["C08"] = {
 
 PROPS["C17"] = {
     "harness": {"kind": "overlay", "pkg": "pkg/p2p/libp2p", "pkgname": "libp2p",
-                "files": ["libp2p/c04_test.go", "libp2p/c17_test.go"], "test": "TestVerifC17"},
+                "files": ["libp2p/c04_test.go", "libp2p/timers_test.go", "libp2p/c17_test.go"], "test": "TestVerifC17"},
     "level_text": "Theorem by induction over arbitrary histories of placements (permanent, timed, re-blocking of the same peer), time advances and queries: isBlocked answers exactly 'some placement on this peer is still in force' (duration 0, or now <= start+duration), the dial and secured hooks answer its negation, the listing is sound and complete away from expiry instants; corollaries: permanent blocks never lapse, timed blocks hold their full term, never-blocked peers are unaffected; the failure-class -> duration table (0/0/2min/5min) is regenerated from libp2p.go and pinned by a theorem. The model is tied to the real blockPeer/isBlocked/BlockedPeers and the real gater by an exhaustive table of <=3 placements x probe times plus random multi-peer histories.",
     "level_note": "Trusted: Lean kernel; differential harness (virtual time by shifting stored start instants, queries kept >= 1 s from expiry instants); time.Now monotonicity; libp2p calling the gater hooks is not modelled.",
     "nontrivial_rule": "distinct (tag, model answer list) pairs; non-trivial = at least one placement and one query",
@@ -81,8 +81,8 @@ PROPS["C03"] = {
 
 PROPS["C18"] = {
     "harness": {"kind": "overlay", "pkg": "pkg/p2p/libp2p", "pkgname": "libp2p",
-                "files": ["libp2p/c17_test.go", "libp2p/c04_test.go", "libp2p/c18_test.go"], "test": "TestVerifC18"},
-    "extra_harnesses": [{"kind": "overlay", "pkg": "pkg/p2p/libp2p", "pkgname": "libp2p", "files": ["libp2p/c04_test.go"], "test": "TestVerifC04", "tag": "c04"}],
+                "files": ["libp2p/c17_test.go", "libp2p/c04_test.go", "libp2p/timers_test.go", "libp2p/c18_test.go"], "test": "TestVerifC18"},
+    "extra_harnesses": [{"kind": "overlay", "pkg": "pkg/p2p/libp2p", "pkgname": "libp2p", "files": ["libp2p/c04_test.go", "libp2p/timers_test.go"], "test": "TestVerifC04", "tag": "c04"}],
     "level_text": "Theorems: for every scalar d < 2^256 (hence every count of leading zero bytes) the padded key has exactly 32 bytes and denotes d; the key extracted from a secp256k1 identity peer id is the key it was built from; therefore the address derived from the node's transport identity equals the address of the key's public point, for every hash function and every curve satisfying the compress/decompress round trip. Tied to the real pipeline (PadKeyTo32Bytes, UnmarshalSecp256k1PrivateKey, peer id, GetEthAddressFromPeerID) against crypto.PubkeyToAddress for keys with exactly 0..31 leading zero bytes, scalars 1 and n-1, keys whose public coordinates have leading zero bytes, random keys; padded bytes, peer-id bytes and addresses are compared with the model's (Lean Keccak); a sample of keys goes through the real libp2p.New.",
     "level_note": "Trusted: Lean kernel; harness; the secp256k1 group law and point compression are parameters (the round-trip law is a hypothesis of the coherence theorem, discharged by go-ethereum on every generated key); libp2p's peer-id encoding is modelled at byte level for secp256k1 identity ids and compared on every case.",
     "nontrivial_rule": "distinct (tag, number of leading zero bytes of the key) classes, counted as distinct (tag, model pad prefix) pairs",
@@ -152,7 +152,7 @@ PROPS["C15"] = {
 PROPS["C14"] = {
     "harness": {"kind": "overlay", "pkg": "pkg/p2p/libp2p", "pkgname": "libp2p",
                 "files": ["libp2p/c14_test.go"], "test": "TestVerifC14"},
-    "extra_harnesses": [{"kind": "overlay", "pkg": "pkg/p2p/libp2p", "pkgname": "libp2p", "files": ["libp2p/c04_test.go"], "test": "TestVerifC04", "tag": "c04"}],
+    "extra_harnesses": [{"kind": "overlay", "pkg": "pkg/p2p/libp2p", "pkgname": "libp2p", "files": ["libp2p/c04_test.go", "libp2p/timers_test.go"], "test": "TestVerifC04", "tag": "c04"}],
     "level_text": "Theorems for every sequence (hence every interleaving of the atomic, mutex-protected registry operations) of admissions incl. repeated and multi-connection ones, connection closures tracked or not, lookups, stream registrations/removals - under the hypothesis (discharged by C04) that the recorded address is an injective function of the peer id: an invariant (address map and id map mutually inverse; peer registered iff its tracked connection set is non-empty; stream table domain = registered peers) holds in every reachable state; the unguarded dereference in Disconnected is unreachable (no panic); closing the last tracked connection removes the peer from both maps, cancels every recorded handler context and appends exactly one notification; untracked closures change nothing; and a refinement theorem: the four concrete maps are at all times the projections of an abstract one-map specification (peer id -> proven peer, open connections, handler streams), so lookups by id and address, cancellations and notifications are those of the abstract machine. Tied to the real peerRegistry with fake network.Conn/Stream values: exhaustive sequences over 2 peers x 2 connections x 2 streams, random long ones, incl. the lookup/close/addStream schedule of the handler wrapper.",
     "level_note": "Trusted: Lean kernel; harness; libp2p delivering Disconnected for every closed connection; atomicity of each registry method (one mutex). The two-step stream opening of the wrapper is modelled as two steps: a handler whose peer disconnects between getPeer and addStream runs with a context the registry never cancels (allowed by the statement as written, recorded in DESIGN.md as D14).",
     "nontrivial_rule": "distinct (tag, model snapshot list) pairs",
@@ -226,7 +226,7 @@ PROPS["C05"] = {
 
 PROPS["C04"] = {
     "harness": {"kind": "overlay", "pkg": "pkg/p2p/libp2p", "pkgname": "libp2p",
-                "files": ["libp2p/c04_test.go"], "test": "TestVerifC04"},
+                "files": ["libp2p/c04_test.go", "libp2p/timers_test.go"], "test": "TestVerifC04"},
     "extra_harnesses": [{"cmd": "nodewire", "tag": "nodewire"}, {"kind": "overlay", "pkg": "pkg/p2p/libp2p", "pkgname": "libp2p", "files": ["libp2p/c14_test.go"], "test": "TestVerifC14", "tag": "c14"}, {"cmd": "c15", "tag": "c15"}],
     "level_text": "Theorems for every remote transcript (arbitrary frame lists), both directions, every local role, every registry answer and every primitive answer: characterisation of verifyReq (success iff the signature over exactly role||token verifies, to the address of the authenticated transport identity, and - for the exact role string 'provider' - the registry confirmed it; the registry is consulted at most once and only after the signature and address checks passed); a peer is admitted with (A,T) by the responder only if its first frame is such a request and its second frame echoes the node's own address and role, and by the initiator only if the responder first echoed the initiator's own address and role and then presented such a request; a peer obtains the provider role only through the exact string the stake check keys on (role strings regenerated from p2p.go); registration and notification happen only after success, signature/address failures are blocked forever and stake failures for the regenerated durations. Tied to the real handshake.Service built as libp2p.New builds it (real signer, real GetEthAddressFromPeerID) over a scripted stream, and to the real handleConnectReq / Connect on a Service with a fake libp2p host, real peerRegistry, recording notifier and real block list: message kinds per position x signature classes x role strings (incl. case/whitespace variants) x echoes x truncations x write failures x non-secp256k1 transport identity x registry answers x local roles x direction. Whole node: the scenarios of harness/cmd/nodewire (two real nodes built by node.NewNode against a scripted JSON-RPC chain node, driven through their gRPC APIs: stake / allowance present or not, engine accepts or rejects, well-formed or malformed request) are part of this check and are judged by Model/Wiring.",
     "level_note": "Trusted: Lean kernel; harness; libp2p's authentication of the remote peer id (connection security) is assumed; ECDSA recovery/verification answers come from go-ethereum directly and are parameters of the theorems; an unknown role string is admitted with role 'unknown' (allowed by the statement's 'only if', recorded).",
@@ -265,7 +265,7 @@ PROPS["C20"] = {
 
 PROPS["C06"] = {
     "harness": {"kind": "overlay", "pkg": "pkg/p2p/libp2p", "pkgname": "libp2p",
-                "files": ["libp2p/c17_test.go", "libp2p/c04_test.go", "libp2p/c06_test.go"], "test": "TestVerifC06"},
+                "files": ["libp2p/c17_test.go", "libp2p/c04_test.go", "libp2p/timers_test.go", "libp2p/c06_test.go"], "test": "TestVerifC06"},
     "extra_harnesses": [{"kind": "overlay", "pkg": "pkg/p2p/libp2p", "pkgname": "libp2p", "files": ["libp2p/c14_test.go"], "test": "TestVerifC14", "tag": "c14"}],
     "level_text": "Theorems: every partial operation that peer-controlled data can reach is modelled with Go's panicking semantics and proved unreachable in the panicking case - sig[64] in eipVerify and the embedded-bid dereference in VerifyPreConfirmation (for every hash function and scheme), the signature slice in signer.Verify (reached only after recovery succeeded, i.e. for 65-byte signatures; the guard is shown necessary), the prefix slice in GetEthAddressFromPeerID (reached only after decompression succeeded), the registry dereference in Disconnected (from the C14 invariant), BytesToAddress total for every length; frame reading is total. Tied to the real entry points invoked the way libp2p invokes them: handshake handler and Connect (all signature lengths 0..70, role strings, non-secp256k1 identities, echo shapes), the AddStreamHandlers wrapper with the real preconfirmation and discovery handlers behind it (digest/signature length classes, non-numeric and huge amounts, extreme numbers, gossip addresses of length 0..40, hostile contact records through the real Connect), the bidder's SendBid reading hostile commitments through the real stream decoder, raw ReadMsg/ReadHeader, oversize/truncated/empty/OK-error frames, byte-level mutations and random bytes.",
     "level_note": "Trusted: Lean kernel; harness; third-party decoders (protobuf, multiaddr / AddrInfo JSON, msgio) are exercised, not modelled (partial). The libp2p Service is built with a metrics registry, as the node does (without one its counters are nil and a failed inbound handshake dereferences them - noted in DESIGN.md).",
